@@ -41,6 +41,7 @@ type Harness struct {
 	NoMono     bool
 	Conc       bool
 	Workers    int
+	confirmed  sync.Map
 	Doc        string
 	Opts       map[string]string
 }
@@ -429,6 +430,7 @@ func newExec(ld *Loaded, h *Harness, solver *Solver, res *HarnessResult, known [
 	ex := &Exec{prog: ld.prog, ts: ts, h: h, globals: map[*ssa.Global]*Object{}, locks: map[string]*lockState{},
 		funcs: res.Funcs, stubs: res.Stubs, ghost: map[string]Value{}, forkCnt: map[ssa.Instruction]int{}, initDone: map[*ssa.Package]bool{}}
 	ex.ctl = &PathCtl{prefix: append([]int{}, prefix...), push: push}
+	ex.ld = ld
 	ex.sess = &Session{solver: solver, r: r, ts: ts, ex: ex, res: res, feasTO: h.FeasTO, oblTO: h.OblTO, known: known}
 	if solver != nil {
 		ex.sess.lastRestarts = solver.restarts
